@@ -86,6 +86,8 @@ SUBS = {
     'io': "def add(a, b):\n    return a + b\nname = input('n?')\nprint('hi', name, len(name))\n",
     'blank': "\n",
     'indent': "def add(a, b):\n    return a + b\n  x = 1\n",
+    # what the analyser knows about the plotting library decides which feedback this program gets
+    'plot_typed': "import matplotlib.pyplot as plt\ndef add(a, b):\n    return a + b\nlabel = 'Drew ' + plt.plot([1, 2, 3])\n",
     'tifa': "def add(a, b):\n    return a + b\nprint(undefined_thing)\n",
     'modmutate': "import math\ndef add(a, b):\n    return a + b\nif add(0, 0):\n    math.pi = '3.14'\n",
     'moduse': "import math\ndef add(a, b):\n    return a + b\nradius = 2\nprint(math.pi + radius)\n",
@@ -273,7 +275,8 @@ def phases(tier):
     envcore += [('nothing', p, 'standard') for p in MODULE_SUBS] + [('assert', p, 'standard') for p in MODULE_SUBS]
     envcore += [('long_args', p, 'standard') for p in ('good', 'wrong', 'runtime')]
     # a script that pulls in an optional extension (first import in the process) next to a submission that uses the library
-    envcore += [('plots', 'good', 'standard'), ('plots', 'plot', 'standard'), ('nothing', 'plot', 'standard'), ('assert', 'plot', 'standard')]
+    envcore += [('plots', 'good', 'standard'), ('plots', 'plot', 'standard'), ('nothing', 'plot', 'standard'), ('assert', 'plot', 'standard'),
+                ('nothing', 'plot_typed', 'standard'), ('plots', 'plot_typed', 'standard')]
     envcore += [('override_same_name', 'good', 'standard'), ('override_same_name', 'indent', 'standard'),
                 ('nothing', 'indent', 'standard'), ('assert', 'indent', 'standard')]
     allg = gradings(tier)
